@@ -98,6 +98,19 @@ def handoff(ctx: Ctx, rule="R-C03-HANDOFF") -> None:
     ctx.note(f"hand-off region: {len(held_region)} nodes, {sum(1 for i in held_region if flow.is_suspension(g.nodes[i]))} suspension points examined")
 
 
+def _drains_all(f, loop: ast.AST, q: str) -> bool:
+    """`while q.qsize() > 0` / `while not q.empty()` / `for _ in range(q.qsize())` with no suspension point in the body (the count is fixed up front)."""
+    if isinstance(loop, ast.While):
+        t = C.utext(f, loop.test)
+        return t in (f"{q}.qsize() > 0", f"not {q}.empty()", f"{q}.qsize() != 0", f"{q}.qsize()", f"0 < {q}.qsize()", f"{q}.qsize() >= 1")
+    if isinstance(loop, ast.For):
+        it = C.inline_locals(f, loop.iter, calls="all") or loop.iter
+        no_susp = not any(isinstance(x, (ast.Await, ast.AsyncFor, ast.AsyncWith)) for st in loop.body for x in ast.walk(st))
+        brk = any(isinstance(x, (ast.Break, ast.Return)) for st in loop.body for x in ast.walk(st))
+        return unparse(it) == f"range({q}.qsize())" and no_susp and not brk
+    return False
+
+
 def finish(ctx: Ctx, rule="R-C03-FINISH") -> None:
     # redis
     f = ctx.func(f"{C.REDIS_CONS}.finish")
@@ -116,9 +129,10 @@ def finish(ctx: Ctx, rule="R-C03-FINISH") -> None:
     r_nc = flow.reach_under(g, started, flow.NORMAL_KINDS, blocked={c.id for c in canc})
     ctx.check(bool(canc) and not any(x.id in r_nc for x in gets), rule, f, "redis finish: background consume task cancelled before draining",
               "no new message is prefetched while draining", "redis finish() drains the local queue without first cancelling the background consume task", instance="redis finish: cancel first")
-    loops = [n for n in ast.walk(f.node) if isinstance(n, ast.While)]
-    ok = len(loops) == 1 and unparse(loops[0].test) in ("self.queue.qsize() > 0", "not self.queue.empty()")
-    ctx.check(ok, rule, f, "redis finish: drains until the local queue is empty", "while qsize() > 0", f"redis finish() loop condition is {[unparse(l.test) for l in loops]}", instance="redis finish: loop")
+    loops = [n for n in ast.walk(f.node) if isinstance(n, (ast.While, ast.For)) and gets and any(x is gets[0].ast for x in ast.walk(n))]
+    ok = len(loops) == 1 and _drains_all(f, loops[0], "self.queue")
+    ctx.check(ok, rule, f, "redis finish: drains until the local queue is empty", "while qsize() > 0 / one get per queued item",
+              f"redis finish() drain loop is {[unparse(l.test) if isinstance(l, ast.While) else 'for ... in ' + unparse(l.iter) for l in loops]}: it does not take every locally queued message", instance="redis finish: loop")
     # rabbitmq
     f = ctx.func(f"{C.RABBIT_CONS}.finish")
     g = ctx.cfg(f)
